@@ -1,6 +1,7 @@
 ---------------------------- MODULE SchemaSource_MC ----------------------------
 EXTENDS SchemaSource, Json, IOUtils, SequencesExt
-ThreeFiles == {"a/x.graphql", "b/sub/y.graphqls", "z.gql"}
+\* file slots: three extensions, nested directories, and two files with the SAME NAME in different directories
+ThreeFiles == {"a/x.graphql", "b/sub/y.graphqls", "z.gql", "b/x.graphql"}
 NoDev == {}
 AsBuilt == {"defaults_from_ast_only"}
 PartSeq == SetToSeq([Defs -> ThreeFiles])
